@@ -128,7 +128,7 @@ theorem step_of_e {s : St} {a : EAct} (h : s.exited = none) : step s (.e a) = eS
 /-- a worker step: worker `i` moves from `p` to `q`, writes its slot, and touches the mutexes -/
 theorem w_step_facts {s s' : St} {i : Nat} {a : WAct} (hs : wStep s i a = some s') :
     ∃ p q, s.ws[i]? = some p ∧ wNext s.g a p (tsAt s i == .canceled) = some q ∧
-      (a = .lockT → s.thd = .none) ∧ (a = .lock → s.own = .none) ∧
+      (a.locksT = true → s.thd = .none) ∧ (a = .lock → s.own = .none) ∧
       s' = wEffect i { s with ws := s.ws.set i q, ts := s.ts.set i (wWrite s.g a p (tsAt s i)) } a := by
   simp only [wStep] at hs
   split at hs
